@@ -582,6 +582,36 @@ func c18r3(c *core.Ctx) {
 	} else {
 		c.Undecided("Entities", token.NoPos, "not found")
 	}
+	// the name an entity comes back with is the name it was stored under. The stored form is JSON, and encoding/json replaces every
+	// byte of a string that is not valid UTF-8 by U+FFFD: a name of arbitrary bytes survives only in the key (hex of the name), so
+	// the loader takes the name from the key. Otherwise the entity that EntityWithName / Entities return for "ctrl-\x80" is named
+	// "ctrl-\ufffd": it cannot be looked up or deleted under the name it reports, and two names that differ in invalid bytes are listed as one.
+	if ld := p.Func("db", "(*database).entityForKey"); ld != nil && len(ld.Params) > 1 {
+		fromKey := false
+		for _, b := range bodies(ld) {
+			core.Instrs(b.fn, func(i ssa.Instruction) {
+				st, ok := i.(*ssa.Store)
+				if !ok {
+					return
+				}
+				if _, isName := core.FieldAddrOf(st.Addr, mod+"/db.Entity", "Name"); !isName {
+					return
+				}
+				walkOperands(st.Val, 8, func(v ssa.Value) {
+					if pk := core.CallResult(v, 0, func(ci ssa.Instruction) bool { return core.IsCall(ci, "encoding/hex.DecodeString") }); pk != nil {
+						walkOperands(core.CallOf(pk).Args[0], 8, func(a ssa.Value) {
+							if valIs(b.lift(a), ld.Params[1]) || valIs(a, ld.Params[1]) {
+								fromKey = true
+							}
+						})
+					}
+				})
+			})
+		}
+		c.Check(fromKey, "loaded-name-from-key@"+fname(ld), ld.Pos(), "the name of a loaded entity is decoded from its key", "the name of a loaded entity is whatever the stored JSON says: for a name that is not valid UTF-8 that is a different name (invalid bytes replaced by U+FFFD) — the entity cannot be found or deleted under the name it reports, and distinct names are listed as one. C18 holds 'for every entity name', names are arbitrary bytes")
+	} else {
+		c.Undecided("entityForKey", token.NoPos, "loader not found")
+	}
 	for _, spec := range []struct{ name, op string }{{"SaveEntity", "Set"}, {"DeleteEntity", "Delete"}, {"EntityWithName", "Get"}} {
 		f := p.Func("db", "(*database)."+spec.name)
 		if f == nil {
